@@ -27,8 +27,10 @@ pub fn run(seed: u64, tier: &str, out: &mut Out) {
         let case = format!("STYLE FX={fx} ; {}", ops.iter().map(|o| match o { B::Tc(n, _) => format!("tc {n}"), B::Ts(n) => format!("ts {n}"), B::Pc(ws) => format!("pc {}", if ws.is_empty() { "-".into() } else { ws.iter().map(|w| w.to_string()).collect::<Vec<_>>().join(",") }) }).collect::<Vec<_>>().join(" ; "));
         let ops2 = ops.clone();
         // the bar state a style must cope with includes the texts: wide, combining and coloured ones in truncating fields
-        let tpl: &'static str = *rng.pick(&["{spinner} {bar:20} {wide_bar}", "{spinner} {bar:20} {wide_bar}", "{spinner} {wide_msg} {bar:7}", "{prefix:3!} {msg:>4!} {msg:^5!} {bar:0}", "{wide_msg:^} {pos}/{len}"]);
-        let msg: String = match rng.below(5) { 0 => String::new(), 1 => "plain text".into(), 2 => "日本語のメッセージです長い".into(), 3 => "e\u{301}e\u{301}e\u{301}e\u{301}e\u{301}e\u{301}".into(), _ => "\x1b[32mgreen\x1b[0m and more".into() };
+        let tpl: &'static str = *rng.pick(&["{spinner} {bar:20} {wide_bar}", "{spinner} {bar:20} {wide_bar}", "{spinner} {wide_msg} {bar:7}", "{prefix:3!} {msg:>4!} {msg:^5!} {bar:0}", "{wide_msg:^} {pos}/{len}",
+            // truncating fields of zero, one and two columns, every alignment (a cut may fall inside a multi-byte character at both ends at once)
+            "{msg:^0!}|{prefix:>0!}|{msg:<0!}", "{msg:^1!}{prefix:^2!}{msg:>1!}", "{wide_msg:^}{pos:>3}", "{wide_msg:>} {pos}/{len}", "{prefix:^1!} {wide_msg:^}"]);
+        let msg: String = match rng.below(11) { 5 => "完".into(), 6 => "日a".into(), 7 => "🚀".into(), 8 => "ab🚀cd".into(), 9 => "é".into(), 10 => "aé".into(), 0 => String::new(), 1 => "plain text".into(), 2 => "日本語のメッセージです長い".into(), 3 => "e\u{301}e\u{301}e\u{301}e\u{301}e\u{301}e\u{301}".into(), _ => "\x1b[32mgreen\x1b[0m and more".into() };
         let built = catch_unwind(move || {
             let mut s = ProgressStyle::with_template(tpl).unwrap();
             for o in &ops2 { s = match o {
@@ -46,7 +48,7 @@ pub fn run(seed: u64, tier: &str, out: &mut Out) {
             Ok(style) => {
                 let mut panicked = false;
                 for (ticks, finish) in [(0u64, false), (1, false), (3, false), (31, false), (0, true)] {
-                    for w in [1u16, 3, 40] {
+                    for w in [1u16, 2, 3, 4, 5, 6, 7, 40] {
                         let st = style.clone();
                         let r = catch_unwind(AssertUnwindSafe(|| {
                             let rec = Recorder::new(5, w, false);
